@@ -298,3 +298,50 @@ package policy
 //@ lemma [C11] missing_data(r int): (r == 2 ==> !passes(r) && ppasses(r)) && (r == 3 ==> passes(r) && ppasses(r))
 //@ // matching a concatenation is matching both parts (policies are conjunctions of their statements)
 //@ lemma [C11] concat(n int, m int): 0 <= n && 0 <= m ==> ((forall j int :: {famA(j)} 0 <= j && j < n + m ==> passes(famA(j))) == ((forall j int :: {famA(j)} 0 <= j && j < n ==> passes(famA(j))) && (forall j int :: {famA(j)} n <= j && j < n + m ==> passes(famA(j)))))
+//@
+//@ // ---- C14: the constructors build the statement they name ------------------------------------------------------------
+//@ // a comparison constructor: the operator of its name, the literal as given, the selector a reading of the text given
+//@ pure func builtCmp(s Statement, err error, kind string, selector string, value ipld.Node) bool =
+//@     err == nil ==> s is equality && s.(equality).kind == kind && s.(equality).value == value && selReads(s.(equality).selector, selector)
+//@ func Equal$1
+//@   ensures [C14] built: builtCmp(result0, result1, "==", selector, value)
+//@ func GreaterThan$1
+//@   ensures [C14] built: builtCmp(result0, result1, ">", selector, value)
+//@ func GreaterThanOrEqual$1
+//@   ensures [C14] built: builtCmp(result0, result1, ">=", selector, value)
+//@ func LessThan$1
+//@   ensures [C14] built: builtCmp(result0, result1, "<", selector, value)
+//@ func LessThanOrEqual$1
+//@   ensures [C14] built: builtCmp(result0, result1, "<=", selector, value)
+//@ // like: the pattern as given (accepted exactly when it is well-formed), the selector a reading of the text given
+//@ func Like$1
+//@   ensures [C14] built: result1 == nil ==> result0 is wildcard && string(result0.(wildcard).pattern) == pattern && wfGlob(pattern, 0) && selReads(result0.(wildcard).selector, selector)
+//@   ensures [C14] rejects: !wfGlob(pattern, 0) ==> result1 != nil
+//@ // not / all / any wrap the statement the inner constructor returns (constructors are function values: deterministic, effect-free)
+//@ func Not$1
+//@   requires cstor != nil
+//@   ensures [C14] built: result1 == nil ==> result0 is negation && result0.(negation).statement == fnres0(cstor) && fnres1(cstor) == nil
+//@ func All$1
+//@   requires cstor != nil
+//@   ensures [C14] built: result1 == nil ==> result0 is quantifier && result0.(quantifier).kind == "all" && result0.(quantifier).statement == fnres0(cstor) && fnres1(cstor) == nil && selReads(result0.(quantifier).selector, selector)
+//@ func Any$1
+//@   requires cstor != nil
+//@   ensures [C14] built: result1 == nil ==> result0 is quantifier && result0.(quantifier).kind == "any" && result0.(quantifier).statement == fnres0(cstor) && fnres1(cstor) == nil && selReads(result0.(quantifier).selector, selector)
+//@ // assemble: one statement per constructor, in order; an error of any constructor is returned
+//@ pure func assembledFrom(stmts []Statement, cstors []Constructor) bool =
+//@     len(stmts) == len(cstors) && (forall i int :: {stmts[i]} 0 <= i && i < len(cstors) ==> stmts[i] == fnres0(cstors[i]) && fnres1(cstors[i]) == nil)
+//@ func assemble
+//@   requires forall i int :: 0 <= i && i < len(cstors) ==> cstors[i] != nil
+//@   ensures [C14] built: result1 == nil ==> assembledFrom(result0, cstors)
+//@   ensures [C14] rejects: result1 != nil ==> result0 == nil
+//@   loop 0: invariant 0 <= k && k <= len(cstors) && len(stmts) == k && fresh(stmts) && (forall i int :: {stmts[i]} 0 <= i && i < k ==> stmts[i] == fnres0(cstors[i]) && fnres1(cstors[i]) == nil)
+//@           decreases len(cstors) - k
+//@ func And$1
+//@   requires forall i int :: 0 <= i && i < len(cstors) ==> cstors[i] != nil
+//@   ensures [C14] built: result1 == nil ==> result0 is connective && result0.(connective).kind == "and" && assembledFrom(result0.(connective).statements, cstors)
+//@ func Or$1
+//@   requires forall i int :: 0 <= i && i < len(cstors) ==> cstors[i] != nil
+//@   ensures [C14] built: result1 == nil ==> result0 is connective && result0.(connective).kind == "or" && assembledFrom(result0.(connective).statements, cstors)
+//@ func Construct
+//@   requires forall i int :: 0 <= i && i < len(cstors) ==> cstors[i] != nil
+//@   ensures [C14] built: result1 == nil ==> assembledFrom(result0, cstors)
